@@ -2572,6 +2572,7 @@ def geometric_vsop_pos(epoch, vsop_l, vsop_b, vsop_r, tofk5=True):
         delta_beta = 0.03916 * (cos(lambda_p.rad()) - sin(lambda_p.rad()))
         delta_beta = Angle(0, 0, delta_beta)
         lon += delta_lon
+        lon = lon.to_positive()     # Keep the longitude in the [0, 360) range
         lat += delta_beta
     return lon, lat, r
 
@@ -2610,6 +2611,7 @@ def apparent_vsop_pos(epoch, vsop_l, vsop_b, vsop_r, nutation=True):
     delta = -20.4898 / r
     delta = Angle(0, 0, delta)
     lon += delta
+    lon = lon.to_positive()     # Keep the longitude in the [0, 360) range
     return lon, lat, r
 
 
